@@ -163,3 +163,4 @@ def r01_5(res, P, cfgname, rid="R01.5"):
 LEVEL = LEVEL + ' Also (R19.2, shared) no arithmetic step of the integer kernels sits inside a debug assertion.'
 TECHNIQUE = 'static analysis of MIR: path-sensitive use-of-result rule (carry/borrow consumed on every path), abstract evaluation of dispatcher and estimator bodies over all length classes, finite sign tables (FDT), debug-region effect analysis'
 LEVEL = LEVEL + ' (R01.4) push_resizing, which skips a zero word, is never directly followed by another positional append on the same buffer.'
+LEVEL = LEVEL + ' (R01.5) in the signed add/sub kernel the operands are swapped exactly on the paths where the result sign is negated.'
